@@ -1,4 +1,5 @@
 import BreezyVerif.Lemmas.C45
+import BreezyVerif.Lemmas.C45S
 /-!
 C45 — theorems about the end-of-line filters.
 
@@ -387,5 +388,145 @@ theorem unset_pref_exact {H : Type} [DecidableEq H] (sha : Bytes → H) (win : B
 
 /-- a known key gets the table's stack, an unknown one is an error -/
 theorem prefStack_some (win : Bool) (key : String) : prefStack win (some key) = eolLookup win key := rfl
+
+/-! ### every comparison route, and the "sizes differ ⇒ contents differ" shortcut
+
+The dirstate fast path (`reportsChange`) and the generic tree comparison
+(`contentMatches`, `InterTree.file_content_matches` behind
+`InterInventoryTree.iter_changes`: `extra_trees` given, the other tree not a
+dirstate parent, `status -r` / `diff -r`) must take the same decision.  The
+code has no size shortcut (`SizeCheck.off`); the theorems below say which size
+such a shortcut may look at. -/
+
+/-- **Both routes take the same decision**, for every hash function, stack,
+recorded size / hash and file content. -/
+theorem generic_path_agrees {H : Type} [DecidableEq H] (sha : Bytes → H) (stack : List Filter)
+    (recSize : Nat) (recorded : H) (disk : Bytes) :
+    contentMatches sha .off stack recSize recorded disk = !reportsChange sha stack recorded disk := by
+  simp only [contentMatches, targetSize, reportsChange, bne, Bool.not_not]
+
+/-- **A fresh checkout reports no changes through every route**: under the
+hypotheses of `checkout_clean`, the dirstate route, the generic route without
+a size shortcut and the generic route with a shortcut on the *filtered* size
+all say "unchanged". -/
+theorem checkout_clean_every_route {H : Type} [DecidableEq H] (sha : Bytes → H)
+    (win : Bool) (name : String) (stack : List Filter) (h : (name, stack) ∈ eolMap win)
+    (c : Bytes) (hn : hasNul c = false) (hc : readIn stack c = c)
+    (hx : lossy stack = true → noCrCrLf false c = true) :
+    reportsChange sha stack (sha c) (writeOut stack c) = false ∧
+    contentMatches sha .off stack c.length (sha c) (writeOut stack c) = true ∧
+    contentMatches sha .filtered stack c.length (sha c) (writeOut stack c) = true := by
+  obtain ⟨h1, h2⟩ := checkout_clean sha win name stack h c hn hc hx
+  have rt := (roundtrip_iff win name stack h c hn hc).2 hx
+  refine ⟨h1, ?_, ?_⟩
+  · simp [contentMatches, targetSize, hashedText_eq, rt]
+  · simp [contentMatches, targetSize, hashedText_eq, rt, h2]
+
+/-- **A size shortcut is sound against the FILTERED size**: for every entry
+of the table, both platforms, every recorded text `c` and every file content
+`d` (fresh or modified), comparing `FilteredStat`'s size with the recorded
+size first never changes the decision — provided equal hashes imply equal
+lengths for the two texts involved (true for every collision-free pair). -/
+theorem size_check_filtered_sound {H : Type} [DecidableEq H] (sha : Bytes → H)
+    (win : Bool) (name : String) (stack : List Filter) (h : (name, stack) ∈ eolMap win)
+    (c d : Bytes)
+    (hlen : sha (readIn stack d) = sha c → (readIn stack d).length = c.length) :
+    contentMatches sha .filtered stack c.length (sha c) d =
+      contentMatches sha .off stack c.length (sha c) d := by
+  have hs := (stat_size_canonical win name stack h d).1
+  simp only [contentMatches, targetSize, hs, hashedText_eq]
+  split
+  · rename_i hne
+    have hne' : (readIn stack d).length ≠ c.length := by simpa using hne
+    symm
+    simp only [beq_eq_false_iff_ne, ne_eq]
+    exact fun e => hne' (hlen e)
+  · rfl
+
+/-- non-vacuity: the identity "hash" satisfies `hlen`, and the filtered size
+of the `crlf` checkout `"a\r\n"` of `"a\n"` is the recorded size 2 -/
+example : ((id : Bytes → Bytes) (readIn [⟨some .toLf, some .toCrlf⟩] [97, 13, 10]) = id [97, 10] →
+      (readIn [⟨some .toLf, some .toCrlf⟩] [97, 13, 10]).length = ([97, 10] : Bytes).length)
+    ∧ targetSize [⟨some .toLf, some .toCrlf⟩] [97, 13, 10] .filtered = some 2
+    ∧ targetSize [⟨some .toLf, some .toCrlf⟩] [97, 13, 10] .raw = some 3
+    ∧ contentMatches id .filtered [⟨some .toLf, some .toCrlf⟩] 2 [97, 10] [97, 13, 10] = true
+    ∧ contentMatches id .filtered [⟨some .toLf, some .toCrlf⟩] 2 [97, 10] [98, 13, 10] = false := by
+  decide
+
+/-- for every entry of the table the checkout has the length of the text exactly when it is the text -/
+theorem length_writeOut_eq_iff (win : Bool) (name : String) (stack : List Filter)
+    (h : (name, stack) ∈ eolMap win) (c : Bytes) :
+    (writeOut stack c).length = c.length ↔ writeOut stack c = c := by
+  simp only [eolMap, List.mem_cons, Prod.mk.injEq, List.mem_nil_iff, or_false] at h
+  rcases h with h | h | h | h | h | h | h <;> obtain ⟨rfl, rfl⟩ := h <;> cases win <;>
+    simp [writeOut, outputBytes, Conv.apply, Conv.fn, nativeOutput, length_toLf_eq_iff,
+      length_toCrlf_eq_iff]
+
+/-- **A size shortcut on the RAW disk size is unsound — exactly on the
+converted files.**  For every hash function, every entry of the table, both
+platforms and every canonical text without NUL (without `\r\r\n` for the lossy
+settings): comparing the `os.lstat` size of the freshly checked-out file with
+the recorded size reports the file as different *iff* the setting's writer
+changed the text at all. -/
+theorem size_check_raw_dirty_iff {H : Type} [DecidableEq H] (sha : Bytes → H)
+    (win : Bool) (name : String) (stack : List Filter) (h : (name, stack) ∈ eolMap win)
+    (c : Bytes) (hn : hasNul c = false) (hc : readIn stack c = c)
+    (hx : lossy stack = true → noCrCrLf false c = true) :
+    contentMatches sha .raw stack c.length (sha c) (writeOut stack c) = false ↔
+      writeOut stack c ≠ c := by
+  have rt := (roundtrip_iff win name stack h c hn hc).2 hx
+  have hl := length_writeOut_eq_iff win name stack h c
+  simp only [contentMatches, targetSize, hashedText_eq, rt, beq_self_eq_true]
+  constructor
+  · intro e he
+    have := hl.2 he
+    simp [this] at e
+  · intro hne
+    have : (writeOut stack c).length ≠ c.length := fun e => hne (hl.1 e)
+    simp [this]
+
+/-- non-vacuity of `size_check_raw_dirty_iff`: `"a\nb\r"` under `crlf` satisfies the hypotheses and is converted -/
+example : ("crlf", [⟨some .toLf, some .toCrlf⟩]) ∈ eolMap false
+    ∧ hasNul [97, 10, 98, 13] = false
+    ∧ readIn [⟨some .toLf, some .toCrlf⟩] [97, 10, 98, 13] = [97, 10, 98, 13]
+    ∧ lossy [⟨some .toLf, some .toCrlf⟩] = false
+    ∧ writeOut [⟨some .toLf, some .toCrlf⟩] [97, 10, 98, 13] ≠ [97, 10, 98, 13] := by decide
+
+/-- **Witness**: for *every* hash function, the fresh checkout of the canonical
+text `"a\n"` under `crlf` (both platforms) is the 3-byte file `"a\r\n"`; a
+shortcut on the raw size says "different", the comparison without shortcut and
+the one on the filtered size say "same". -/
+theorem size_check_raw_witness {H : Type} [DecidableEq H] (sha : Bytes → H) (win : Bool) :
+    let c : Bytes := [97, 10]
+    ∃ stack, eolLookup win "crlf" = some stack ∧ hasNul c = false ∧ readIn stack c = c ∧
+      writeOut stack c = [97, 13, 10] ∧
+      contentMatches sha .raw stack c.length (sha c) (writeOut stack c) = false ∧
+      contentMatches sha .off stack c.length (sha c) (writeOut stack c) = true ∧
+      contentMatches sha .filtered stack c.length (sha c) (writeOut stack c) = true := by
+  intro c
+  have e : writeOut [⟨some .toLf, some .toCrlf⟩] c = [97, 13, 10] := by decide
+  have r : hashedText [⟨some .toLf, some .toCrlf⟩] [97, 13, 10] = c := by decide
+  have s : statSize [⟨some .toLf, some .toCrlf⟩] [97, 13, 10] = 2 := by decide
+  refine ⟨[⟨some .toLf, some .toCrlf⟩], by cases win <;> decide, by decide, by decide, e, ?_, ?_, ?_⟩
+  · simp [contentMatches, targetSize, e, c]
+  · simp [contentMatches, targetSize, e, r]
+  · simp [contentMatches, targetSize, e, r, s, c]
+
+/-- the same for the CRLF-in-repo settings that write LF off win32: `"a\r\n"` is checked out as `"a\n"` -/
+theorem size_check_raw_witness_crlf_repo {H : Type} [DecidableEq H] (sha : Bytes → H) :
+    let c : Bytes := [97, 13, 10]
+    ∀ name ∈ ["lf-with-crlf-in-repo", "native-with-crlf-in-repo"],
+      ∃ stack, eolLookup false name = some stack ∧ hasNul c = false ∧ readIn stack c = c ∧
+        writeOut stack c = [97, 10] ∧
+        contentMatches sha .raw stack c.length (sha c) (writeOut stack c) = false ∧
+        contentMatches sha .off stack c.length (sha c) (writeOut stack c) = true := by
+  intro c name hname
+  have e : writeOut [⟨some .toCrlf, some .toLf⟩] c = [97, 10] := by decide
+  have r : hashedText [⟨some .toCrlf, some .toLf⟩] [97, 10] = c := by decide
+  refine ⟨[⟨some .toCrlf, some .toLf⟩], ?_, by decide, by decide, e, ?_, ?_⟩
+  · simp only [List.mem_cons, List.mem_nil_iff, or_false] at hname
+    rcases hname with rfl | rfl <;> decide
+  · simp [contentMatches, targetSize, e, c]
+  · simp [contentMatches, targetSize, e, r]
 
 end BreezyVerif.C45
